@@ -362,6 +362,8 @@ Proof.
       eapply tail_good; eauto.
   - apply Forall_cons; [|sv_good P]. simpl. apply (d_ns _ ID); auto.
     unfold started. destruct (f_set_done _ _ Heqo0) as [_ ->]. apply andb_false_r.
+  - apply Forall_cons; [|sv_good P]. simpl. apply (d_ns _ ID); auto.
+    unfold started. rewrite (fires_pending _ Heqb0). apply andb_false_r.
 Qed.
 
 Lemma invD1_init : InvD1 init.
